@@ -13,7 +13,7 @@ func init() {
 	register("C07", propMeta{
 		Level: "other",
 		Explanation: "R07a (path machine over executionContext.run): on every path with a non-empty idempotency key the key is reserved (Referencer.take, kind referenceIks) before the store lookup and before the executor runs, the reservation is released by a defer of run itself (so after the persistence wait, R06a) and never earlier. " +
-			"R07b: every log that is chained in package command (both the real and the preview path) comes from a builder whose every return has, when the key is non-empty, passed through Log.WithIdempotencyKey(Parameters.IdempotencyKey) — for every kind of write, because all kinds funnel through the same function. R07c: the store lookup by key is ledger-scoped and filters on the key column. R07d: between the engine and the store the key is only ever copied. R07e: the lookup sees every committed log carrying the key — in the PostgreSQL store its query is conditioned by the key and the ledger only, in the other stores it reads no other field of the stored records — so no committed holder of the key is filtered out of the check.",
+			"R07b: every log that is chained in package command (both the real and the preview path) comes from a builder whose every return has, when the key is non-empty, passed through Log.WithIdempotencyKey(Parameters.IdempotencyKey) — for every kind of write, because all kinds funnel through the same function. R07c: the store lookup by key is ledger-scoped and filters on the key column. R07d: between the engine and the store the key is only ever copied. R07f: on the nil-error edge of the store lookup (a log carrying the key exists) no write is executed, whatever else the found log is compared with. R07e: the lookup sees every committed log carrying the key — in the PostgreSQL store its query is conditioned by the key and the ledger only, in the other stores it reads no other field of the stored records — so no committed holder of the key is filtered out of the check.",
 		NotDecided:  "uniqueness in SQL (there is no unique index on idempotency_key; the in-memory reservation plus the lookup is the whole mechanism); behaviour across several processes sharing one ledger.",
 		Trusted:     []string{"sync.Map LoadOrStore/Delete semantics", "defer ordering"},
 		Assumptions: []string{"a single process writes to a ledger (the Referencer is in-memory)"},
@@ -151,6 +151,8 @@ func ruleR07a(c *Ctx) {
 		kRel := name + ":reservation-spans-persistence"
 		obl.expect(kRes, fn.Pos(), "with a non-empty key, take(referenceIks) precedes ReadLogWithIdempotencyKey and the execution on every path")
 		obl.expect(kRel, fn.Pos(), "the reservation is released only after the persistence wait of the log handed off under it (or when nothing was handed off)")
+		kFound := name + ":found-key-is-answered-not-executed"
+		obl.expect(kFound, fn.Pos(), "on the nil-error edge of ReadLogWithIdempotencyKey no write is executed")
 		isKeyEmptyFact := func(f Fact) (empty bool, ok bool) {
 			s, isStr := constString(f.Y)
 			if !isStr || s != "" {
@@ -201,9 +203,12 @@ func ruleR07a(c *Ctx) {
 						if s&rvTAKEN == 0 {
 							obl.violate(kRes, x.Pos(), "the store is searched for the idempotency key on a path that does not hold the reservation of the key", pc.Trail())
 						}
-						return s | rvLOOKED
+						return (s | rvLOOKED) &^ (rvFOUND | rvNOTFOUND)
 					}
 					if _, _, ok := m.appendCall(c, x); ok {
+						if s&rvFOUND != 0 {
+							obl.violate(kFound, x.Pos(), "the write is executed on a path where the store lookup FOUND a log carrying the key (its error is nil): the key takes effect a second time — whatever else the found log is compared with (its type, its date), a key that is recorded answers from its record", pc.Trail())
+						}
 						if s&rvEMPTY == 0 && (s&rvTAKEN == 0 || s&rvLOOKED == 0) {
 							what := "without holding the reservation of the idempotency key"
 							if s&rvTAKEN != 0 {
@@ -233,6 +238,23 @@ func ruleR07a(c *Ctx) {
 							s |= rvEMPTY
 						} else {
 							s &^= rvEMPTY
+						}
+					}
+					// the lookup's own error: nil = a log carrying the key exists
+					if e, ok := f.X.(*ssa.Extract); ok && isNilConst(f.Y) {
+						if call, ok := e.Tuple.(*ssa.Call); ok && isCallTo(call, m.readLogIK) && ifaceMethodOf(call) != nil && e.Index == 1 {
+							// a second test of the same error that contradicts the first is an infeasible edge
+							if f.Eq {
+								if s&rvNOTFOUND != 0 {
+									return s, false
+								}
+								s |= rvFOUND
+							} else {
+								if s&rvFOUND != 0 {
+									return s, false
+								}
+								s |= rvNOTFOUND
+							}
 						}
 					}
 					if isNilConst(f.Y) && !f.Eq {
